@@ -28,6 +28,7 @@ func main() {
 	out := flag.String("out", "", "write JSON result")
 	nobatch := flag.Bool("nobatch", false, "one query per obligation")
 	listSSA := flag.String("ssa", "", "dump ssa of function")
+	modsetOf := flag.String("modset", "", "print the static mod-set of a function")
 	jsonSummary := flag.Bool("json-summary", false, "print one line per unit: name obligations proved error")
 	flag.Parse()
 
@@ -46,6 +47,19 @@ func main() {
 			if strings.Contains(k, *listSSA) {
 				fn.WriteTo(os.Stdout)
 			}
+		}
+		return
+	}
+	if *modsetOf != "" {
+		fn := p.findFunc(p.expandUserKey(*modsetOf))
+		if fn == nil {
+			fmt.Println("no such function")
+			return
+		}
+		ms := p.funcModSet(fn)
+		fmt.Println("all:", ms.all)
+		for _, k := range sortedKeys(ms.names) {
+			fmt.Println("  ", k)
 		}
 		return
 	}
